@@ -341,6 +341,41 @@ fn content_variants(t: &Template, out: &mut dyn FnMut(String, Vec<u8>)) {
         ]
     };
     let mut emit = |label: String, m: B| out(format!("{}:{label}", t.name), encode(&m));
+    // signed announcements with extreme timestamps, re-signed so that they get past the signature
+    // check and reach the freshness arithmetic
+    {
+        let sk = krpc::signing_key(3);
+        let pk = sk.verifying_key().to_bytes();
+        let now = UNIX_BASE_MICROS + T0 / 1000;
+        let stamps: [(&str, u64); 7] = [("zero", 0), ("one", 1), ("2^63-1", i64::MAX as u64), ("2^63", 1u64 << 63), ("2^63+now", (1u64 << 63) + now), ("u64-max", u64::MAX), ("now+2^62", now + (1u64 << 62))];
+        if t.name == "q-announce_signed_peer" {
+            for (n, ts) in stamps {
+                let mut m = t.msg.clone();
+                if let B::Dict(top) = &mut m {
+                    if let Some((_, a)) = top.iter_mut().find(|(k, _)| k == b"a") {
+                        a.set("t", B::Int(ts as i64 as i128));
+                        a.set("k", B::bytes(pk));
+                        a.set("sig", B::bytes(krpc::sign_announce(&sk, &ID_B, ts)));
+                    }
+                }
+                emit(format!("a.t=content/validly-signed-timestamp-{n}"), m);
+            }
+        }
+        if t.name == "r-get_signed_peers" {
+            for (n, ts) in stamps {
+                let mut rec = pk.to_vec();
+                rec.extend_from_slice(&ts.to_be_bytes());
+                rec.extend_from_slice(&krpc::sign_announce(&sk, &ID_B, ts));
+                let mut m = t.msg.clone();
+                if let B::Dict(top) = &mut m {
+                    if let Some((_, r)) = top.iter_mut().find(|(k, _)| k == b"r") {
+                        r.set("peers", B::List(vec![B::bytes(rec)]));
+                    }
+                }
+                emit(format!("r.peers=content/validly-signed-timestamp-{n}"), m);
+            }
+        }
+    }
     let set_in = |container: &str, key: &str, v: B| -> Option<B> {
         let mut m = t.msg.clone();
         if container.is_empty() {
